@@ -85,18 +85,23 @@ def build(pid, o, P, repo, work, verus_results, kani_out):
                 rp['how'] = 'Kani counterexample re-executed natively against the scratch copy of the real crate (cargo kani playback): the harness assertion fails'
             elif ce.get('concrete_values'):
                 rp['how'] = 'Kani produced concrete values (below); the harness replaces ring primitives by stubs, so it cannot be re-executed natively'
-        drv = None
+        # every driver registered for this obligation (exact id first, then patterns) is tried until one finds a failing input
+        drvs = []
         for k_, v_ in P.get('native_search', {}).items():
             if k_ == o['id'] or re.fullmatch(k_, o['id']):
-                drv = v_
-                break
-        if drv and not rp['failing_input_found']:
+                for d_ in (v_ if isinstance(v_, list) else [v_]):
+                    if d_ not in drvs:
+                        drvs.append(d_)
+        if drvs and not rp['failing_input_found']:
             import native
-            r = native.run_driver(drv, repo, work, o)
-            rp['native_search'] = r
-            if r.get('found'):
-                rp['failing_input_found'] = True
-                rp['how'] = 'native search driver %s found a failing input on the real code' % drv
+            rp['native_search'] = []
+            for drv in drvs:
+                r = native.run_driver(drv, repo, work, o)
+                rp['native_search'].append(r)
+                if r.get('found'):
+                    rp['failing_input_found'] = True
+                    rp['how'] = 'native search driver %s found a failing input on the real code' % drv
+                    break
         if o['backend'].startswith('verus'):
             unit = o['id'].split('::')[0]
             vr = verus_results.get(unit)
